@@ -38,21 +38,6 @@ theorem foldl_absorb (f : Nat → Word) : ∀ (l : List Nat) (v : V),
     simp only [List.foldl_cons]
     rw [foldl_absorb f l, absorb_eq]
 
-theorem beWord_init (w : Nat) : ∀ (r : Bytes) (init : BitVec w),
-    r.foldl (fun (acc : BitVec w) (b : Byte) => (acc <<< 8) ||| b.setWidth w) init =
-      (init <<< (8 * r.length)) ||| r.foldl (fun (acc : BitVec w) (b : Byte) => (acc <<< 8) ||| b.setWidth w) 0
-  | [], init => by simp
-  | c :: r, init => by
-    simp only [List.foldl_cons, List.length_cons]
-    rw [beWord_init w r ((init <<< 8) ||| c.setWidth w),
-      beWord_init w r (((0 : BitVec w) <<< 8) ||| c.setWidth w)]
-    have h8 : 8 * (r.length + 1) = 8 + 8 * r.length := by omega
-    rw [h8, BitVec.shiftLeft_add, BitVec.shiftLeft_or_distrib, BitVec.shiftLeft_or_distrib]
-    have hz : ((0 : BitVec w) <<< 8) <<< (8 * r.length) = 0 := by simp
-    have hzo : ∀ x : BitVec w, (0 : BitVec w) ||| x = x := by intro x; simp
-    rw [hz, hzo]
-    ac_rfl
-
 theorem leWord_snoc (l : Bytes) (b : Byte) :
     leWord 64 (l ++ [b]) = (b.setWidth 64 <<< (8 * l.length)) ||| leWord 64 l := by
   unfold leWord beWord
